@@ -302,7 +302,37 @@ class Frame:
                 raise Unsupported('del target', s)
 
     def st_If(self, s):
-        c = self.truth(self.eval(s.test))
+        tv = self.eval(s.test)
+        ctx = cur()
+        fam = getattr(ctx, 'family', None)
+        tvu = untag(tv)
+        if fam and isinstance(tvu, SBool) and any(getattr(f.annot, 'guarded_stores', False) for f in fam):
+            from . import loops
+            vs = [v.z for f in fam for v in f.vars]
+            cz = z3.simplify(tvu.z)
+            if not z3.is_true(cz) and not z3.is_false(cz) and loops.mentions(cz, vs):
+                # IF-CONVERSION inside an independent-iterations loop: the branch depends on the generic index, so both arms are
+                # executed under their condition on ONE path; stores become family stores restricted to the iterations that take
+                # the arm; facts learned inside an arm and locals assigned there do not survive it
+                for arm, cond in ((s.body, cz), (s.orelse, z3.Not(cz))):
+                    if not arm:
+                        continue
+                    saved = dict(self.env)
+                    mark = len(ctx.pc)
+                    ids = set(ctx.__dict__.get('_pc_ids', ()))
+                    ctx.solver.push()
+                    ctx.__dict__.setdefault('fam_guards', []).append(cond)
+                    ctx.assume_raw(cond)
+                    try:
+                        self.exec_block(arm)
+                    finally:
+                        ctx.fam_guards.pop()
+                        ctx.solver.pop()
+                        del ctx.pc[mark:]
+                        ctx._pc_ids = ids
+                        self.env.clear(); self.env.update(saved)
+                return
+        c = self.truth(tv)
         self.exec_block(s.body if c else s.orelse)
 
     def st_Assert(self, s):
@@ -421,7 +451,9 @@ class Frame:
             if annot is None:
                 raise Unsupported(f'loop #{ordinal} in {self.f.qualname} over symbolic-length iterable needs an annotation', s)
             return annot.apply_for(self, s, it)
-        if annot is not None and getattr(annot, 'always', False):
+        if annot is not None and getattr(annot, 'always', False) and isinstance(untag(it), (SRange, range)):
+            # (annotations are keyed by loop ordinal; on a path where that ordinal is a plain loop over a concrete dict / list the
+            #  schema does not apply and the loop is simply unrolled)
             return annot.apply_for(self, s, it)
         if len(seq) > 5000:
             raise Unsupported('concrete loop too long to unroll', s)
